@@ -926,11 +926,59 @@ struct IdRec {
 struct SessOut {
     /// lookups per branch: index x (file order | time sorted) x (filtered | unfiltered), time x (filtered | unfiltered)
     /// + time lookups checked by the oracle, of those: where the presented start times answer differently, not checked
-    counts: [u64; 9],
+    counts: [u64; 13],
     obs: O,
     verdict: Verdict,
     file_coq: String,
     tags: Vec<String>,
+    classes: Vec<String>,
+}
+
+/// known finding (known_findings.d/C16.json): with sort:true the sort thread keys the messages of a lifecycle with the start
+/// estimate it saw first (capped at the reception time); when the estimate moves afterwards (a message with a smaller delay
+/// after the lifecycle was confirmed and published), the time-sorted view is not in the order of the times the lookup
+/// compares (final start + timestamp) and the binary search answers a position behind a message that is not before the
+/// requested time
+const CLASS_STALE_SORT: &str = "sorted_view_keyed_by_stale_lifecycle_start";
+
+/// the classifier of CLASS_STALE_SORT, on the delivered all_msgs of a sort:true session: the order IS the order of the
+/// sorter's key min(S + timestamp, reception time) for some choice, per lifecycle, of an EARLIER start estimate S (one of
+/// the running minima of reception - timestamp in file order), at least one of them not the final one
+fn stale_start_explains_order(probe: &[RMsg]) -> bool {
+    let mut by_index: Vec<&RMsg> = probe.iter().collect();
+    by_index.sort_by_key(|m| m.index);
+    let mut cands: BTreeMap<u32, Vec<u64>> = BTreeMap::new();
+    for m in &by_index {
+        let est = m.rt.saturating_sub(m.ts as u64 * 100);
+        let v = cands.entry(m.lc).or_default();
+        if v.last().map(|l| est < *l).unwrap_or(true) {
+            v.push(est);
+        }
+    }
+    let lcs: Vec<u32> = cands.keys().cloned().collect();
+    let combos: u64 = cands.values().map(|v| v.len() as u64).product();
+    if combos > 4096 || combos < 2 {
+        return false;
+    }
+    for mut code in 0..combos {
+        let mut choice: BTreeMap<u32, u64> = BTreeMap::new();
+        let mut all_final = true;
+        for lc in &lcs {
+            let v = &cands[lc];
+            let j = (code % v.len() as u64) as usize;
+            code /= v.len() as u64;
+            choice.insert(*lc, v[j]);
+            all_final &= j + 1 == v.len();
+        }
+        if all_final {
+            continue;
+        }
+        let key = |m: &RMsg| std::cmp::min(choice[&m.lc] + m.ts as u64 * 100, m.rt);
+        if probe.windows(2).all(|w| key(&w[0]) <= key(&w[1])) {
+            return true;
+        }
+    }
+    false
 }
 
 fn sess_fail(c: &str, d: String) -> Verdict {
@@ -987,7 +1035,7 @@ fn run_session(srv_port: u16, c: &SessCase, dir: &std::path::Path, uniq: u64) ->
     }
     let open = cl.cmd(&format!("open {}", open_js), &["ok: open", "err: open"]);
     if !open.as_deref().unwrap_or("").starts_with("ok: open") {
-        return SessOut { counts: [0; 9], obs: O::T(vec![O::L(97)]), verdict: sess_fail("open", format!("{:?} {:?}", open, cl.dead)), file_coq: "[] []".into(), tags };
+        return SessOut { counts: [0; 13], obs: O::T(vec![O::L(97)]), verdict: sess_fail("open", format!("{:?} {:?}", open, cl.dead)), file_coq: "[] []".into(), tags, classes: vec![] };
     }
     if c.preload {
         finished = cl.wait_finished(n);
@@ -1422,7 +1470,8 @@ fn run_session(srv_port: u16, c: &SessCase, dir: &std::path::Path, uniq: u64) ->
         }
     }
     // (3) searches and lookups (they were asked in settled states: the stream's sequence is complete)
-    let (mut n_time_checked, mut n_time_discriminating, mut n_time_unchecked) = (0u64, 0u64, 0u64);
+    let (mut n_time_checked, mut n_time_discriminating, mut n_time_unchecked, mut n_time_unchecked_not_linear) = (0u64, 0u64, 0u64, 0u64);
+    let mut known_viol: Option<Verdict> = None;
     if viol.is_none() {
         for ch in &chks {
             match ch {
@@ -1504,6 +1553,41 @@ fn run_session(srv_port: u16, c: &SessCase, dir: &std::path::Path, uniq: u64) ->
                         }
                     } else {
                         n_time_unchecked += 1;
+                        // outside the clause's domain (see docs/C16.md): what does the server answer, compared with a linear
+                        // scan of the delivered stream for the first message whose time is not before the requested one?
+                        if lct.usable {
+                            let seq = seq_of(&streams[*k].fs);
+                            let linear = seq.iter().position(|q| key_of(&probe[*q]) >= t).unwrap_or(seq.len()) as u64;
+                            if linear != *pos && c.sorted {
+                                // with sort:true the order of all_msgs is the server's doing: the clause applies.  The one known
+                                // way in which the time-sorted view is not in time order: the sorter keyed the messages with an
+                                // earlier start estimate of a lifecycle than the final one (known finding)
+                                let v = sess_fail(
+                                    "lookup_time_first_not_before",
+                                    format!(
+                                        "sort:true, time {} ms: got {}, but the stream message at {} is not before it (all_msgs is not in the order of start + timestamp: positions, indices, time - requested around it: {:?})",
+                                        t_ms,
+                                        pos,
+                                        linear,
+                                        (first.saturating_sub(1)..std::cmp::min(probe.len(), first + 4)).map(|q| (q, probe[q].index, key_of(&probe[q]) as i64 - t as i64)).collect::<Vec<_>>()
+                                    ),
+                                );
+                                if stale_start_explains_order(&probe) {
+                                    if known_viol.is_none() {
+                                        known_viol = Some(v);
+                                    }
+                                } else {
+                                    viol = Some(v);
+                                }
+                            }
+                            if linear != *pos {
+                                n_time_unchecked_not_linear += 1;
+                                if std::env::var("VERIF_C16_DEBUG").is_ok() {
+                                    let around: Vec<(usize, u32, i64)> = (first.saturating_sub(2)..std::cmp::min(probe.len(), first + 8)).map(|q| (q, probe[q].index, key_of(&probe[q]) as i64 - t as i64)).collect();
+                                    eprintln!("C16DEBUG sorted={} t_ms={} stream {} answer {} linear {} (all_msgs pos, index, time - t) around the first not-before: {:?}", c.sorted, t_ms, k, pos, linear, around);
+                                }
+                            }
+                        }
                     }
                 }
             }
@@ -1523,10 +1607,15 @@ fn run_session(srv_port: u16, c: &SessCase, dir: &std::path::Path, uniq: u64) ->
     if n_time_unchecked > 0 {
         tags.push("look_time_not_partitioned_at_requested_time".into());
     }
-    let mut counts = [0u64; 9];
+    let mut counts = [0u64; 13];
     counts[6] = n_time_checked;
     counts[7] = n_time_discriminating;
     counts[8] = n_time_unchecked;
+    counts[9 + c.sorted as usize] = n_time_unchecked;
+    counts[11 + c.sorted as usize] = n_time_unchecked_not_linear;
+    if c.sorted && n_time_unchecked > 0 {
+        tags.push("look_time_not_partitioned_in_sorted_file".into());
+    }
     for ch in &chks {
         match ch {
             Chk::LookIdx { k, .. } => counts[(c.sorted as usize) * 2 + (!cf_active(&streams[*k].fs)) as usize] += 1,
@@ -1542,7 +1631,13 @@ fn run_session(srv_port: u16, c: &SessCase, dir: &std::path::Path, uniq: u64) ->
         tags.push("open_plugin".into());
     }
     tags.push(format!("open_collect{}", c.collect));
-    SessOut { counts, obs: O::T(vec![O::T(op_obs), O::T(totals)]), verdict: viol.unwrap_or(Verdict::Ok), file_coq, tags }
+    // a failure of the known class is the verdict only if nothing else failed
+    let mut classes = vec![];
+    if viol.is_none() && known_viol.is_some() {
+        viol = known_viol;
+        classes.push(CLASS_STALE_SORT.to_string());
+    }
+    SessOut { counts, obs: O::T(vec![O::T(op_obs), O::T(totals)]), verdict: viol.unwrap_or(Verdict::Ok), file_coq, tags, classes }
 }
 
 /// short rendering of a possibly very long list of indices, with the first position where it differs from `other`
@@ -1941,7 +2036,7 @@ fn sess_record(sink: &mut Sink, c: SessCase, out: SessOut) {
     let nontrivial = c.ops.len() >= 3 && c.ops.iter().any(|o| matches!(o, SOp::New { fs, .. } if cf_active(fs)));
     let id = sink.next_id();
     let key = format!("{:?}", c);
-    sink.push(Case { id, input_coq, input_json: json!({"kind": "sess", "sess": c}), obs: out.obs, verdict: out.verdict, classes: vec![], tags, nontrivial, key });
+    sink.push(Case { id, input_coq, input_json: json!({"kind": "sess", "sess": c}), obs: out.obs, verdict: out.verdict, classes: out.classes.clone(), tags, nontrivial, key });
 }
 
 fn gen_window(rng: &mut Rng, n: u64) -> (u64, u64) {
@@ -2457,7 +2552,7 @@ fn run_sessions(cases: Vec<SessCase>) -> Vec<(SessCase, SessOut)> {
             })
             .collect();
         for (j, h) in hs.into_iter().enumerate() {
-            outs[chunk_no * par + j] = Some(h.join().unwrap_or_else(|_| SessOut { counts: [0; 9], obs: O::T(vec![O::L(96)]), verdict: sess_fail("harness_panic", "session thread panicked".into()), file_coq: "[] []".into(), tags: vec![] }));
+            outs[chunk_no * par + j] = Some(h.join().unwrap_or_else(|_| SessOut { counts: [0; 13], obs: O::T(vec![O::L(96)]), verdict: sess_fail("harness_panic", "session thread panicked".into()), file_coq: "[] []".into(), tags: vec![], classes: vec![] }));
         }
     }
     drop(srv);
@@ -2497,6 +2592,42 @@ fn corpus_lib() -> Vec<LibCase> {
         LibCase { is_stream: false, fs: vec![(0, 1, 1, 0), (3, 1, 2, 0), (3, 0, 1, 2), (1, 1, 0, 0)], start: 0, end: 20, log: all6.clone(), calls: two_calls.clone() },
         LibCase { is_stream: true, fs: vec![(1, 1, 0, 1), (1, 0, 2, 1), (1, 1, 0, 0)], start: 0, end: 20, log: all6, calls: two_calls },
     ]
+}
+
+fn corpus_overtaking(sorted: bool) -> SessCase {
+    let d = 50_000u32; // 5 s
+    let ts_prev = 1_000 + 699 * 1_000;
+    let ts_b = ts_prev + d + 1_000;
+    let file = vec![
+        FRun { cnt: 700, ecu: 1, apid: 0, ctid: 0, ts0: 1_000, dts: 1_000, jit: 100_000 },
+        FRun { cnt: 1, ecu: 1, apid: 1, ctid: 0, ts0: ts_b, dts: 0, jit: 100_000 - d },
+        FRun { cnt: 100, ecu: 1, apid: 2, ctid: 0, ts0: ts_prev + 1_000, dts: 1_000, jit: 100_000 },
+        // (the rest of the file keeps the lifecycle thread busy while the sort thread sees its first message)
+        FRun { cnt: 30_000, ecu: 1, apid: 0, ctid: 1, ts0: ts_prev + 101_000, dts: 10, jit: 100_000 },
+    ];
+    // times = final start (10 s - 5 s) + timestamp
+    let t = |ts: u32| BASE_US / 1000 + 5_000 + ts as u64 / 10;
+    let mut times: Vec<u64> = vec![t(ts_b) - 6_000, t(ts_b) - 5_001, t(ts_b) - 5_000, t(ts_b) - 4_999, t(ts_b) - 1, t(ts_b), t(ts_b) + 1, t(ts_b) + 5_000];
+    for j in (0..100u32).step_by(7) {
+        times.push(t(ts_prev + 1_000 + j * 1_000));
+    }
+    SessCase {
+        collect: 0,
+        plugin: false,
+        sorted,
+        preload: true,
+        file,
+        ops: vec![
+            SOp::New { settle: true, is_stream: true, binary: true, fs: vec![], start: 695, end: 705 },
+            SOp::New { settle: true, is_stream: true, binary: true, fs: vec![(0, 1, 2, 1)], start: 0, end: 5 },
+            SOp::LookTimes { k: 0, ts_ms: times.clone() },
+            SOp::LookTimes { k: 1, ts_ms: times },
+            SOp::LookIdx { k: 0, idx: 700 },
+            SOp::LookIdx { k: 1, idx: 700 },
+            SOp::LookIdx { k: 0, idx: 750 },
+            SOp::LookIdx { k: 1, idx: 750 },
+        ],
+    }
 }
 
 fn corpus_resumed(sorted: bool) -> SessCase {
@@ -2675,6 +2806,11 @@ fn corpus_sess() -> Vec<SessCase> {
         // BEFORE the first one's by messages with a smaller delay; time lookups across both, file order and sorted by time
         corpus_resumed(false),
         corpus_resumed(true),
+        // sort:true; one message of a lifecycle that has been running for 70 s gets through 5 s faster than the others (the
+        // start estimate moves 5 s after the lifecycle was published): the witness of the known finding
+        // sorted_view_keyed_by_stale_lifecycle_start - and the same file in file order
+        corpus_overtaking(true),
+        corpus_overtaking(false),
         // a query sent right after open on a file that takes a while to parse (repaired: it used to end empty)
         SessCase {
             collect: 0, plugin: false, sorted: false,
@@ -2750,9 +2886,9 @@ fn main() {
         sess.push(gen_large_sess(&mut srng, n_target));
     }
     let done = run_sessions(sess);
-    let mut counts = [0u64; 9];
+    let mut counts = [0u64; 13];
     for (_, o) in &done {
-        for j in 0..9 {
+        for j in 0..13 {
             counts[j] += o.counts[j];
         }
     }
@@ -2760,7 +2896,9 @@ fn main() {
         "lookups_per_branch".into(),
         json!({"index_file_order_filtered": counts[0], "index_file_order_unfiltered": counts[1], "index_time_sorted_filtered": counts[2],
                "index_time_sorted_unfiltered": counts[3], "time_filtered": counts[4], "time_unfiltered": counts[5],
-               "time_checked_by_oracle": counts[6], "time_checked_where_presented_start_answers_differently": counts[7], "time_not_partitioned_at_requested_time": counts[8]}),
+               "time_checked_by_oracle": counts[6], "time_checked_where_presented_start_answers_differently": counts[7], "time_not_partitioned_at_requested_time": counts[8],
+               "time_not_partitioned_file_order": counts[9], "time_not_partitioned_sort_true": counts[10],
+               "time_not_partitioned_file_order_answer_differs_from_linear_scan": counts[11], "time_not_partitioned_sort_true_answer_differs_from_linear_scan": counts[12]}),
     );
     let (mut large, normal): (Vec<_>, Vec<_>) = done.into_iter().partition(|(c, _)| c.file.iter().map(|r| r.cnt as u64).sum::<u64>() >= 100_000);
     // library level
